@@ -40,7 +40,8 @@ fn space(k: usize) -> ForestSpace {
         Stmt::Repeat(lit(2), vec![l(0), l(1)]),
         Stmt::ResetRandom,
     ];
-    let blocks = vec![Block::Loop("i".into(), lit(2)), Block::Loop("j".into(), lit(1)), Block::While(lit(0))];
+    // while(i < 1): the device shows i = 0, so the body runs until a `let i = 1;` in it has been executed
+    let blocks = vec![Block::Loop("i".into(), lit(2)), Block::Loop("j".into(), lit(1)), Block::While(lit(0)), Block::While(bin(BinOp::Lt, name("i"), lit(1)))];
     ForestSpace::new(atoms, blocks, 3, k)
 }
 
@@ -71,6 +72,10 @@ pub fn singles(nlines: usize) -> Vec<Dev> {
     for p in 1..nlines {
         d.push(Dev::TrailingComment(p, " # c"));
     }
+    // indentation, of the header line too
+    for p in 0..nlines {
+        d.push(Dev::Indent(p, " \t"));
+    }
     d.push(Dev::NoFinalNewline);
     d
 }
@@ -84,7 +89,7 @@ pub fn run(tier: Tier, seed: u64) -> i32 {
     for cfg in 0..2 {
     let sigs = sigs(cfg);
     let (na, nq) = names(cfg);
-    let answer: Answer = vec![(nq.into(), V::Num(3)), ("i".into(), V::Num(202))];
+    let answer: Answer = vec![(nq.into(), V::Num(3)), ("i".into(), V::Num(0))];
     let script = vec![Step::Ans(answer)];
     // the companion test: rows with X and C expansions on lines 11.. of another text
     let companion = load(&format!("{na} {nq}\n\n\n\n\n\n\n\n\n\nX 1\nC X\n1 1\nX X\n"), &sigs, DEFAULT_BUDGET).ok();
@@ -94,7 +99,7 @@ pub fn run(tier: Tier, seed: u64) -> i32 {
         }
         let sp = space(k);
         let n = sp.count(k);
-        let label = format!("programs with {k} statements (8 atomic statements, 3 block headers, nesting <= 3) x all layouts with <= {maxdev} deviations (blank/whitespace/comment lines anywhere, blank lines before the header, CRLF on one line or all, trailing comment, no final newline)");
+        let label = format!("programs with {k} statements (8 atomic statements, 4 block headers incl. a while that runs, nesting <= 3) x all layouts with <= {maxdev} deviations (blank/whitespace/comment lines anywhere, blank lines before the header, CRLF on one line or all, trailing comment, indentation of any line incl. the header, no final newline)");
         let st = par_range(&label, n, &deadline, |idx, st| {
             let body = sp.unrank(k, idx);
             let body = rename(&body, nq);
@@ -107,6 +112,9 @@ pub fn run(tier: Tier, seed: u64) -> i32 {
                 return;
             }
             let r = ref_run_fuel(&prog, &sigs, &script, 600, 60);
+            if r.events.contains("while_ran_1") || r.events.contains("while_ran_2plus") {
+                st.witness("while_ran_1");
+            }
             if r.end != RefEnd::Done {
                 st.out_of_scope += 1;
                 return;
@@ -189,6 +197,7 @@ pub fn run(tier: Tier, seed: u64) -> i32 {
                         Dev::CrlfAll | Dev::CrlfLine(_) => "crlf",
                         Dev::TrailingComment(..) => "trailing_comment",
                         Dev::NoFinalNewline => "no_final_newline",
+                        Dev::Indent(..) => "indented_line",
                         _ => "other",
                     });
                 }
@@ -235,7 +244,7 @@ pub fn run(tier: Tier, seed: u64) -> i32 {
         seed,
         rule: "every program of the space that yields at least one row x every layout with at most 2 deviations from the canonical one-statement-per-line layout; the expected line of each row is recorded by the generator when it lays the text out; dynamic API, static API (when the program is static) and the same text loaded through a generated .dig document; non-trivial = at least one deviation".into(),
         assumptions: vec!["the generating printer (layout.rs) is the oracle for line numbers; only the line field is compared here".into()],
-        required_witnesses: vec!["blank_line_before_header", "comment_line_inserted", "blank_line_inserted", "crlf", "trailing_comment", "no_final_newline", "static_api_lines_compared", "loaded_from_dig_document", "companion_iterator_advanced_in_between", "row_on_a_line_beyond_65535"],
+        required_witnesses: vec!["blank_line_before_header", "comment_line_inserted", "blank_line_inserted", "crlf", "trailing_comment", "no_final_newline", "static_api_lines_compared", "loaded_from_dig_document", "companion_iterator_advanced_in_between", "row_on_a_line_beyond_65535", "indented_line", "while_ran_1"],
         exhaustive_note: "all programs x all layouts within the bounds (K=4 in the thorough tier with single deviations)".into(),
         e1: false,
     };
